@@ -19,6 +19,7 @@ type verifImp struct {
 	id         *ast.Ident
 	used       bool
 	forced     bool
+	place      int // where the reference sits: 0 call statement, 1 var initialiser, 2 type declaration, 3 labelled statement, 4 nested selector
 }
 
 // verifBuildImports: a file with up to three imports (equal base names, distinct paths), each
@@ -32,11 +33,25 @@ func verifBuildImports(pkg *Package, imps []*verifImp, declared []string) {
 	for _, im := range imps {
 		if im.forced {
 			f.forceImport(im.path)
-			continue
+			if !im.used {
+				continue
+			}
 		}
 		im.id = f.newImport(im.name, im.path)
 		if im.used {
-			stmts = append(stmts, &ast.ExprStmt{X: &ast.CallExpr{Fun: &ast.SelectorExpr{X: im.id, Sel: &ast.Ident{Name: "F"}}}})
+			sel := &ast.SelectorExpr{X: im.id, Sel: &ast.Ident{Name: "F"}}
+			switch im.place {
+			case 0:
+				stmts = append(stmts, &ast.ExprStmt{X: &ast.CallExpr{Fun: sel}})
+			case 1:
+				f.goDecls = append(f.goDecls, &ast.GenDecl{Tok: token.VAR, Specs: []ast.Spec{&ast.ValueSpec{Names: []*ast.Ident{{Name: "v" + im.name}}, Values: []ast.Expr{&ast.CallExpr{Fun: sel}}}}})
+			case 2:
+				f.goDecls = append(f.goDecls, &ast.GenDecl{Tok: token.TYPE, Specs: []ast.Spec{&ast.TypeSpec{Name: &ast.Ident{Name: "T" + im.name}, Type: &ast.StructType{Fields: &ast.FieldList{List: []*ast.Field{{Names: []*ast.Ident{{Name: "f"}}, Type: sel}}}}}}})
+			case 3:
+				stmts = append(stmts, &ast.LabeledStmt{Label: &ast.Ident{Name: "L" + im.name}, Stmt: &ast.ExprStmt{X: &ast.CallExpr{Fun: sel}}})
+			case 4:
+				stmts = append(stmts, &ast.ExprStmt{X: &ast.SelectorExpr{X: sel, Sel: &ast.Ident{Name: "G"}}})
+			}
 		}
 	}
 	f.goDecls = append(f.goDecls, &ast.FuncDecl{Name: &ast.Ident{Name: "f"}, Type: &ast.FuncType{Params: &ast.FieldList{}}, Body: &ast.BlockStmt{List: stmts}})
@@ -68,11 +83,15 @@ func verifImportSpecs(decls []ast.Decl) (specs []verifSpec, ok bool) {
 }
 
 func verifMkImps() []*verifImp {
-	all := []*verifImp{{name: "fmt", path: "fmt"}, {name: "fmt", path: "a/fmt"}, {name: "os", path: "os"}}
+	all := []*verifImp{{name: "fmt", path: "fmt"}, {name: "fmt", path: "a/fmt"}, {name: "fmt", path: "b/fmt"}, {name: "os", path: "os"}}
 	var imps []*verifImp
 	for i, im := range all {
 		s := string(rune('0' + i))
-		switch vp.Choose("imp"+s, 4) {
+		nopt := 5
+		if i == 3 {
+			nopt = 3
+		}
+		switch vp.Choose("imp"+s, nopt) {
 		case 0: // absent
 		case 1:
 			imps = append(imps, im)
@@ -82,6 +101,12 @@ func verifMkImps() []*verifImp {
 		case 3:
 			im.forced = true
 			imps = append(imps, im)
+		case 4: // force-imported and referenced
+			im.forced, im.used = true, true
+			imps = append(imps, im)
+		}
+		if im.used && i == 0 {
+			im.place = vp.Choose("place"+s, 5)
 		}
 	}
 	return imps
@@ -89,17 +114,10 @@ func verifMkImps() []*verifImp {
 
 func VerifH_C09_imports() {
 	imps := verifMkImps()
-	var declared []string
-	for _, n := range []string{"fmt", "fmt1", "os"} {
-		if vp.Choose("decl."+n, 2) == 1 {
-			declared = append(declared, n)
-		}
-	}
+	declared := [][]string{nil, {"fmt"}, {"fmt1"}, {"fmt", "fmt1"}, {"fmt", "fmt1", "fmt2", "os"}, {"fmt2", "os1"}}[vp.Choose("declared", 6)]
 	pkg := verifNewPkg()
 	verifBuildImports(pkg, imps, declared)
-	vp.MapOrder(true)
-	decls := pkg.file.getDecls(pkg)
-	vp.MapOrder(false)
+	decls := pkg.file.getDecls(pkg) // (independence of the table's iteration order is C15's harness)
 	specs, ok := verifImportSpecs(decls)
 	vp.Assert("C09.specs.wellformed", ok)
 	// exactly the used and the forced imports, each once
@@ -111,8 +129,15 @@ func VerifH_C09_imports() {
 			for _, s := range specs {
 				if s.path == im.path {
 					n++
-					if im.forced {
+					if im.forced && !im.used {
 						vp.Assert("C09.forced.blank", s.name == "_")
+					} else if im.forced {
+						// force-imported and referenced: the reference must still resolve (a blank import cannot be referenced)
+						eff := s.name
+						if eff == "" {
+							eff = im.name
+						}
+						vp.Assert("C09.forcedused.resolves", s.name != "_" && im.id.Name == eff)
 					} else {
 						// the reference resolves to this import: the shared identifier carries the spec's name
 						eff := s.name
@@ -371,4 +396,88 @@ func VerifH_C09_shadow() {
 	vp.Fact("kind", vp.Choose("kind", len(verifShadowKinds)))
 	vp.Fact("before", verifB2I(before))
 	vp.Assert("C09.shadow.notcaptured", kind == "none" || eff != "fmt")
+}
+
+// two files with their own import tables; references that are built and then discarded
+func VerifH_C09_files() {
+	pkg := NewPackage("", "main", &Config{Importer: verifImporter{}, DefaultGoFile: "a.go", HandleErr: func(err error) { panic(err) }})
+	fmtPkg := verifFakeFmt()
+	println := fmtPkg.Scope().Lookup("Println")
+	other := types.NewPackage("x/fmt", "fmt")
+	other.Scope().Insert(types.NewFunc(token.NoPos, other, "Printf", types.NewSignatureType(nil, nil, nil, nil, nil, false)))
+	other.MarkComplete()
+	printf := other.Scope().Lookup("Printf")
+	// file a.go
+	inA := vp.Choose("a.ref", 4) // 0 none, 1 fmt, 2 x/fmt, 3 both
+	discardA := vp.Choose("a.discard", 2) == 1
+	cb := pkg.NewFunc(nil, "fa", nil, nil, false).BodyStart(pkg)
+	if inA == 1 || inA == 3 {
+		cb.Val(println).Call(0).EndStmt()
+	}
+	if inA == 2 || inA == 3 {
+		cb.Val(printf).Call(0).EndStmt()
+	}
+	if discardA { // a reference built and dropped again
+		cb.Val(printf)
+		cb.ResetStmt()
+	}
+	cb.End()
+	// file b.go
+	old, err := pkg.SetCurFile("b.go", true)
+	if err != nil {
+		panic(err)
+	}
+	inB := vp.Choose("b.ref", 4)
+	cb = pkg.NewFunc(nil, "fb", nil, nil, false).BodyStart(pkg)
+	if inB == 1 || inB == 3 {
+		cb.Val(println).Call(0).EndStmt()
+	}
+	if inB == 2 || inB == 3 {
+		cb.Val(printf).Call(0).EndStmt()
+	}
+	cb.End()
+	pkg.RestoreCurFile(old)
+	check := func(fname string, ref int, fnName string) {
+		f, _ := pkg.File(fname)
+		decls := f.getDecls(pkg)
+		specs, _ := verifImportSpecs(decls)
+		want := 0
+		if ref == 1 || ref == 3 {
+			want++
+		}
+		if ref == 2 || ref == 3 {
+			want++
+		}
+		vp.Assert("C09.files.exact", len(specs) == want)
+		names := map[string]string{}
+		for _, s := range specs {
+			eff := s.name
+			if eff == "" {
+				eff = "fmt"
+			}
+			names[s.path] = eff
+		}
+		if want == 2 {
+			vp.Assert("C09.files.unique", names["fmt"] != names["x/fmt"])
+		}
+		// every qualified reference in the function uses the name of the import of its package
+		for _, d := range decls {
+			if fd, ok := d.(*ast.FuncDecl); ok && fd.Name.Name == fnName {
+				ast.Inspect(fd.Body, func(n ast.Node) bool {
+					if sel, ok := n.(*ast.SelectorExpr); ok {
+						if id, ok := sel.X.(*ast.Ident); ok {
+							path := "fmt"
+							if sel.Sel.Name == "Printf" {
+								path = "x/fmt"
+							}
+							vp.Assert("C09.files.resolves", id.Name == names[path])
+						}
+					}
+					return true
+				})
+			}
+		}
+	}
+	check("a.go", inA, "fa")
+	check("b.go", inB, "fb")
 }
